@@ -17,6 +17,9 @@ __attribute__((used, visibility("default"))) const char *__ubsan_default_options
 __attribute__((used, visibility("default"))) const char *__tsan_default_options() { return "exitcode=0:color=never:halt_on_error=0:report_signal_unsafe=0:suppress_equal_stacks=0:suppress_equal_addresses=0:history_size=4:second_deadlock_stack=1"; }
 }
 
+extern "C" void __asan_set_error_report_callback(void (*)(const char *)) __attribute__((weak));
+static volatile int g_asan_reported = 0;
+static void on_asan_report(const char *) { g_asan_reported = 1; }
 static int g_out = 1;
 static void out_line(const std::string &s) {
     std::string l = s + "\n"; size_t off = 0;
@@ -69,6 +72,7 @@ int main(int argc, char **argv) {
     std::string cmd = argv[1];
     signal(SIGALRM, on_alarm);
     sim_global_init();
+    if (__asan_set_error_report_callback) __asan_set_error_report_callback(on_asan_report);
     if (cmd == "run" && argc >= 5) {
         const Check *c = find_check(argv[2]);
         if (!c) { fprintf(stderr, "unknown check %s\n", argv[2]); return 2; }
@@ -85,6 +89,7 @@ int main(int argc, char **argv) {
             if (line.getb("violated") || getenv("SIM_PLANS")) line.set("plan", p.to_json());
             out_line(line.dump());
             if (line.getb("fatal") || line.getb("violated")) return line.getb("fatal") ? 79 : 0 + 76; // state may be damaged: let the driver restart us
+            if (g_asan_reported) return 75;   // the run went on after a memory error: do not trust this process any further
         }
         return 0;
     }
